@@ -13,7 +13,10 @@ package main
 // Those listed in neighbourRegistered have a consumer under the "all" registration
 // (none has one under "sparse"), the others never have one.
 
-import "strings"
+import (
+	"fmt"
+	"strings"
+)
 
 var consumesUniverse = []string{"application/json", "text/plain", "text/*", "*/*", "application/*", "application/json; charset=utf-8", "text/plain;charset=utf-8"}
 
@@ -97,4 +100,55 @@ func neighbourHeaders() []Header {
 		}
 	}
 	return out
+}
+
+// wildcardHeaders: request headers that are themselves spelled as a media range, generated from the
+// consumes universe: for every entry T/S the values T/*, */S and */*, each also in upper case, and one
+// with a parameter. They are valid header values (mime tokens) naming the odd media types "t/*", "*/s".
+func wildcardHeaders() []Header {
+	var out []Header
+	seen := map[string]bool{}
+	add := func(v string) {
+		if seen[v] {
+			return
+		}
+		seen[v] = true
+		out = append(out, Header{Lines: []string{v}, Kind: "valid", MTs: []string{strings.ToLower(base(v))}})
+	}
+	for _, e := range consumesUniverse {
+		if strings.Contains(e, ";") {
+			continue
+		}
+		t := typeOf(e)
+		sub := e[len(t)+1:]
+		for _, v := range []string{t + "/*", "*/" + sub, "*/*"} {
+			add(v)
+			add(strings.ToUpper(v))
+		}
+		add(t + "/*; charset=utf-8")
+	}
+	return out
+}
+
+// Body content for the framings without a declared length: the gate must not depend on what the first
+// byte of the body is. First byte x length 1 and 2, chunked and in-process unknown length.
+var contentFirstBytes = []byte{'{', 'a', '\n', '\r', ' ', 0x00, 0xFF}
+
+var contentModes []string
+
+func init() {
+	for _, fb := range contentFirstBytes {
+		for _, n := range []int{1, 2} {
+			body := string([]byte{fb})
+			if n == 2 {
+				body += "x"
+			}
+			id := fmt.Sprintf("chunked-%x", body)
+			bodyModes[id] = bodyMode{carries: "yes", raw: fmt.Sprintf("Transfer-Encoding: chunked\r\n\r\n%d\r\n%s\r\n0\r\n\r\n", n, body), doc: fmt.Sprintf("chunked, one chunk, body bytes %x", body)}
+			contentModes = append(contentModes, id)
+			id = fmt.Sprintf("unknown-%x", body)
+			bodyModes[id] = bodyMode{carries: "yes", isDir: true, direct: body, doc: fmt.Sprintf("built in process, ContentLength -1, body bytes %x", body)}
+			contentModes = append(contentModes, id)
+		}
+	}
 }
